@@ -78,6 +78,8 @@ func srcText(fset *token.FileSet, n ast.Node) string {
 //	#stop     a search loop is left early only on a condition about the entry just popped (its
 //	          point is the destination; its distance exceeds the destination's): only a popped
 //	          entry's distance is final;
+//	#walk     where a route is read off by walking predecessors, the test that lets the walk move on
+//	          is about the predecessor field it follows, not about the distance;
 //	#siblings ExpandSearch and ExpandSearchTo relax edges with structurally identical code (the
 //	          arguments of AddOrUpdate apart).
 //
@@ -89,7 +91,7 @@ func init() {
 		Name:  "DIJKSTRA-SHAPE",
 		IR:    "ast",
 		Props: []string{"C30"},
-		Floor: 8,
+		Floor: 10,
 		Doc: "the shortest-path search keeps the structural invariants of Dijkstra's algorithm over its indexed heap: min-order on distance, index bookkeeping in Swap/Push/Pop, distance+predecessor+heap.Fix updated together, " +
 			"the relaxed candidate compared with the limit is the one stored, popped entries are settled and skipped, and the two search loops relax edges identically",
 		Run: runDijkstraShape,
@@ -282,6 +284,71 @@ func runDijkstraShape(c *Ctx) []Obligation {
 						fmt.Sprintf("%s is lowered at %s without %s in the same block: the heap or the route no longer agrees with the distance", nodeText(c.Fset, as.Lhs[0]), c.Position(as.Pos()),
 							map[bool]string{true: "heap.Fix on the entry's position", false: "storing the predecessor segment"}[hasSeg]))
 				}
+				return true
+			})
+		}
+		// #walk: a route is read off by walking predecessors: `if r, ok := s.byPoint[p]; ok && <test> {
+		// … p = r.F.… }`. The walk moves along the struct-typed field F of the entry (the predecessor
+		// segment), so the test that lets it move has to be about F (is there a predecessor?), not
+		// about another field such as the distance (a point reached over zero-cost segments is not the
+		// origin).
+		for mname, fd := range ms {
+			ord := 0
+			ast.Inspect(fd.Body, func(n ast.Node) bool {
+				ifs, ok := n.(*ast.IfStmt)
+				if !ok || ifs.Init == nil {
+					return true
+				}
+				init, ok := ifs.Init.(*ast.AssignStmt)
+				if !ok || len(init.Lhs) != 2 || len(init.Rhs) != 1 {
+					return true
+				}
+				if _, isIx := ast.Unparen(init.Rhs[0]).(*ast.IndexExpr); !isIx {
+					return true
+				}
+				rid, ok := init.Lhs[0].(*ast.Ident)
+				if !ok || info.Defs[rid] == nil {
+					return true
+				}
+				r := info.Defs[rid]
+				// the body moves along r.F (a struct-typed field of the entry)
+				followed := ""
+				ast.Inspect(ifs.Body, func(m ast.Node) bool {
+					as, ok := m.(*ast.AssignStmt)
+					if !ok || len(as.Lhs) != 1 || len(as.Rhs) != 1 {
+						return true
+					}
+					if _, isIdent := as.Lhs[0].(*ast.Ident); !isIdent {
+						return true
+					}
+					ast.Inspect(as.Rhs[0], func(k ast.Node) bool {
+						if sel, ok := k.(*ast.SelectorExpr); ok {
+							if x, ok := ast.Unparen(sel.X).(*ast.Ident); ok && info.Uses[x] == r {
+								if _, isStruct := info.TypeOf(sel).Underlying().(*types.Struct); isStruct {
+									followed = sel.Sel.Name
+								}
+							}
+						}
+						return true
+					})
+					return true
+				})
+				if followed == "" {
+					return true
+				}
+				tests := false
+				ast.Inspect(ifs.Cond, func(k ast.Node) bool {
+					if sel, ok := k.(*ast.SelectorExpr); ok && sel.Sel.Name == followed {
+						if x, ok := ast.Unparen(sel.X).(*ast.Ident); ok && info.Uses[x] == r {
+							tests = true
+						}
+					}
+					return true
+				})
+				ord++
+				add(fmt.Sprintf("%s#walk%d", key(mname), ord), ifs.Pos(), tests,
+					fmt.Sprintf("%s walks back along %s.%s while %s", mname, rid.Name, followed, srcText(c.Fset, ifs.Cond)),
+					fmt.Sprintf("%s walks back along %s.%s, but the test that lets it move on (%s) does not look at %s: an entry without a predecessor can be followed, or one with a predecessor taken for the origin (a point reached at distance 0)", mname, rid.Name, followed, srcText(c.Fset, ifs.Cond), followed))
 				return true
 			})
 		}
